@@ -70,8 +70,9 @@ CLAIMS = {
        "predicate selects; a chunk the loader prunes by its metadata range holds no selected row (lemma); apply_selection keeps exactly the "
        "rows satisfying the mode's predicate, in order, and rejects unknown modes. Hence select(range, loaded rows) = select(range, all rows) "
        "for every law-abiding chunking.",
-  note="Not covered: selection strings / callables (numexpr), keep/drop columns, seconds and time_within conversion, Context.get_iter's "
-       "no-chunk error, composition with the processors; boolean-mask indexing is a trusted library model.",
+  note="Also proved: Context.get_iter applies exactly the request's selection / columns / time range / time_selection to every chunk "
+       "before it is handed out. Not covered: selection strings / callables (numexpr), keep/drop columns, seconds and time_within "
+       "conversion; boolean-mask indexing is a trusted library model.",
   technique="contract-based deductive verification (modular: Chunk.split contract at call sites; lemma over the contracts)",
   design_ref="DESIGN.md section 6, C10"),
  "C11": dict(
@@ -127,10 +128,15 @@ CLAIMS = {
        "MailboxKilled is propagated, anything else re-raised after the kill), kill (flags, reason set once, all three conditions "
        "notified), the sender thread _send_from (every exception from the source or from send kills the mailbox; a failed send is "
        "thrown into the source first; regular exhaustion closes), send/_read re-checking the kill flags after every wait, and the "
-       "reader killing the mailbox on a consumer exception at yield. This is the safety half only.",
+       "reader killing the mailbox on a consumer exception at yield; at processor level ThreadedMailboxProcessor.iter kills every mailbox "
+       "upstream with the failure's reason, cleans every mailbox up, shuts the executors down and only then re-raises, "
+       "SingleThreadProcessor.iter closes every saver while the exception is being handled before re-raising it, and Context.get_iter "
+       "throws a failure (or, when the consumer closes the iterator, an OutsideException) into the processor's generator before it "
+       "ends. This is the safety half only.",
   note="'every pipeline thread terminates', 'never hangs' and 'terminates when the capacity exceeds the largest lag' are liveness "
-       "properties this family cannot decide; the level is therefore 'other', not 'proof'. Processor-level relay "
-       "(ThreadedMailboxProcessor.iter etc.) is not yet under contract.",
+       "properties this family cannot decide; the level is therefore 'other', not 'proof'. ThreadedMailboxProcessor.iter assigns into "
+       "a tuple when a GeneratorExit reaches it directly (observation F9; not reachable through Context.get_iter): the contract allows "
+       "that TypeError.",
   technique="contract-based deductive verification of exceptional postconditions (ghost flags for kill/close calls) + structural obligations",
   design_ref="DESIGN.md section 6, C06"),
  "C03": dict(
